@@ -835,3 +835,28 @@ def log_calls_cannot_raise(tree, ob, rels):
         for (rel, qual, c, want, have) in bad:
             ob.undetermined.append('src/{}:{} {}: log call with {} placeholder(s) for {} argument(s) (swallowed by logging while nothing formats records eagerly)'.format(rel, c.lineno, qual, want, have))
         ob.site(rels[0], tree.module(rels[0]).tree, '{} log calls examined, {} with a placeholder / argument mismatch, {} eager record formatter(s) installed'.format(n, len(bad), len(eager)))
+
+
+def encoders_do_not_mask(tree, ob, rels):
+    """ a field encoder puts the value it is given on the wire, or fails: it does not fold the value into the width or the
+    defined bits of the field (x & 0xFFFF, x % 65536, x & self.maxval).  A folded value is a different value: the program
+    keeps working with the one it has (a keepalive interval, the flags of a block in transit) while the peer gets another. """
+    ARITH = (ast.BitAnd, ast.Mod, ast.RShift, ast.LShift)
+    n = 0
+    for rel in rels:
+        for node in tree.module(rel).tree.body:
+            if not isinstance(node, ast.ClassDef):
+                continue
+            for m in node.body:
+                if not (isinstance(m, ast.FunctionDef) and m.name in ('i2m', 'addfield', 'h2i', 'any2i')):
+                    continue
+                n += 1
+                qual = node.name + '.' + m.name
+                ops = [b for b in walk_local(m) if (isinstance(b, ast.BinOp) and isinstance(b.op, ARITH) and not (isinstance(b.left, ast.Constant) and isinstance(b.left.value, (str, bytes))))
+                       or (isinstance(b, ast.AugAssign) and isinstance(b.op, ARITH))]
+                if ops:
+                    ob.violate(rel, qual, src(ops[0])[:60], 'the encoder folds the value into the field (mask / modulo) instead of encoding it or failing: what goes on the wire is another value than the '
+                               'one the program holds and negotiates or forwards with (an interval above 65535 is announced modulo 65536; unassigned flag bits of a bundle in transit are stripped)', ops[0], sure=True)
+                else:
+                    ob.site(rel, m, qual + ' encodes the value it is given (no mask / modulo)')
+    return n
